@@ -118,6 +118,12 @@ func checkMain(args []string) {
 	}
 	t0 := time.Now()
 	defer cleanupSMT()
+	// read-only inputs (pins, known findings, property notes) live with the engine; results may go elsewhere
+	home := os.Getenv("VERIF_HOME")
+	if home == "" {
+		home = *verif
+	}
+	baseLocalsDir = home
 	evPath := filepath.Join(*verif, "evidence", *prop+".json")
 	os.MkdirAll(filepath.Dir(evPath), 0755)
 	os.Remove(evPath)
@@ -147,7 +153,7 @@ func checkMain(args []string) {
 		eng.thorough = true
 	}
 	var cfg propConfig
-	if b, err := os.ReadFile(filepath.Join(*verif, "props", *prop+".json")); err == nil {
+	if b, err := os.ReadFile(filepath.Join(home, "props", *prop+".json")); err == nil {
 		json.Unmarshal(b, &cfg)
 	}
 	var axioms []*Term
@@ -207,6 +213,11 @@ func checkMain(args []string) {
 		}
 	}
 	eng.SolveAll(obls, axioms)
+	renameNotes.Range(func(k, _ any) bool {
+		assumed["A-rename: "+k.(string)+" (resolved by type and declaration order against expected/locals.json)"] = true
+		fmt.Println("NOTE: renamed local resolved:", k.(string))
+		return true
+	})
 	// structural
 	var structs []*StructResult
 	for _, r := range eng.CheckStructural() {
@@ -216,7 +227,7 @@ func checkMain(args []string) {
 	}
 	// known findings
 	var kf knownFile
-	if b, err := os.ReadFile(filepath.Join(*verif, "known_findings.json")); err == nil {
+	if b, err := os.ReadFile(filepath.Join(home, "known_findings.json")); err == nil {
 		json.Unmarshal(b, &kf)
 	}
 	known := map[string]knownFinding{}
@@ -266,6 +277,7 @@ func checkMain(args []string) {
 		}
 	}
 	if *writeExpected {
+		writeBaseLocals(eng, home)
 		var pin []string
 		seen := map[string]bool{}
 		for _, o := range obls {
@@ -279,12 +291,12 @@ func checkMain(args []string) {
 			pin = append(pin, r.Name)
 		}
 		sort.Strings(pin)
-		os.MkdirAll(filepath.Join(*verif, "expected"), 0755)
-		os.WriteFile(filepath.Join(*verif, "expected", *prop+".obl"), []byte("# pinned obligations of "+*prop+": a run that does not generate one of these fails\n"+strings.Join(pin, "\n")+"\n"), 0644)
+		os.MkdirAll(filepath.Join(home, "expected"), 0755)
+		os.WriteFile(filepath.Join(home, "expected", *prop+".obl"), []byte("# pinned obligations of "+*prop+": a run that does not generate one of these fails\n"+strings.Join(pin, "\n")+"\n"), 0644)
 	}
 	// pinned obligations
 	var missing []string
-	if b, err := os.ReadFile(filepath.Join(*verif, "expected", *prop+".obl")); err == nil {
+	if b, err := os.ReadFile(filepath.Join(home, "expected", *prop+".obl")); err == nil {
 		for _, l := range strings.Split(string(b), "\n") {
 			l = strings.TrimSpace(l)
 			if l == "" || strings.HasPrefix(l, "#") {
